@@ -19,7 +19,45 @@ pub fn run_engine_for(id: &str, path: &str, args: &[&str], envs: &[(&str, &str)]
         cmd.env(k, v);
     }
     let mut rep = Report::default();
-    match cmd.stderr(std::process::Stdio::inherit()).output() {
+    // an engine that never finishes is a verdict too (a band body or a search transition that does
+    // not return); the limit is far above the slowest legitimate engine run (~35 min, thorough, loaded)
+    let limit = std::time::Duration::from_secs(std::env::var("VERIF_ENGINE_TIMEOUT").ok().and_then(|v| v.parse().ok()).unwrap_or(7200));
+    let spawned = cmd.stderr(std::process::Stdio::inherit()).stdout(std::process::Stdio::piped()).stdin(std::process::Stdio::null()).spawn();
+    let result: std::io::Result<std::process::Output> = match spawned {
+        Err(e) => Err(e),
+        Ok(mut child) => {
+            let mut pipe = child.stdout.take().expect("engine stdout");
+            let reader = std::thread::spawn(move || {
+                use std::io::Read;
+                let mut buf = Vec::new();
+                let _ = pipe.read_to_end(&mut buf);
+                buf
+            });
+            let mut timed_out = false;
+            let status = loop {
+                match child.try_wait() {
+                    Ok(Some(st)) => break st,
+                    _ => {}
+                }
+                if t0.elapsed() > limit {
+                    timed_out = true;
+                    let _ = child.kill();
+                    break child.wait().expect("wait engine");
+                }
+                std::thread::sleep(std::time::Duration::from_millis(50));
+            };
+            let stdout = reader.join().unwrap_or_default();
+            if timed_out {
+                let s = format!("{}|hang|engine '{}' did not finish within {} s (killed)", id, label, limit.as_secs());
+                rep.sig_counts.insert(s.clone(), 1);
+                rep.viols.push(Viol { space: format!("engine:{}", label), idx: 0, sig: s, detail: json!({"limit_s": limit.as_secs()}) });
+                eprintln!("[{}] engine {:<28} killed after {} s", id, label, limit.as_secs());
+                return rep;
+            }
+            Ok(std::process::Output { status, stdout, stderr: vec![] })
+        }
+    };
+    match result {
         Ok(out) if out.status.success() => {
             let text = String::from_utf8_lossy(&out.stdout);
             match text.lines().rev().find(|l| l.starts_with('{')).map(serde_json::from_str::<Value>) {
